@@ -111,14 +111,15 @@ Qed.
 Lemma resume_flushes_queue h c cn n s :
   aget h.(h_conns) c = Some cn -> cn.(c_sess) = None -> get_sess h n = Some s ->
   is_virtual s.(s_kind) = false -> s.(s_conn) = None -> throttled h cn.(c_addr) ACT_RESUME = false ->
+  queue_closes s = false ->
   let '(h', outs) := step h (OHello c (HResume (IdPriv n))) in
   outs = ToConn c (SHello n (sess_userid h n s)) :: map (ToConn c) s.(s_pending) /\
   (exists s', get_sess h' n = Some s' /\ s'.(s_conn) = Some c /\ s'.(s_pending) = [] /\ s'.(s_room) = s.(s_room)) /\
   nmem n h'.(h_expired) = false.
 Proof.
-  intros Hc Hs Hn Hv Hcn Ht. cbn [step]. rewrite Hc, Hs. cbn [do_hello]. hsimpl.
+  intros Hc Hs Hn Hv Hcn Ht Hq. cbn [step]. rewrite Hc, Hs. cbn [do_hello]. hsimpl.
   assert (Ht' : throttled (set_conns h (aset (h_conns h) c (mkconn (c_addr cn) None (c_expect cn)))) (c_addr cn) ACT_RESUME = false) by exact Ht.
-  rewrite Ht'. unfold get_sess in *. hsimpl. rewrite Hn, Hv, Hcn. hsimpl.
+  rewrite Ht'. unfold get_sess in *. hsimpl. rewrite Hn, Hv, Hcn, Hq. hsimpl.
   split; [reflexivity|]. split.
   - rewrite aget_aset_same. eexists. split; [reflexivity|]. hsimpl. auto.
   - rewrite nmem_nrem, N.eqb_refl. reflexivity.
